@@ -172,3 +172,227 @@ def run_pure(chk, prop):
     chk.count(leg, len(sel), [(c["k"], tuple(c["n"]), tuple(c["b"])) for c in sel],
               samples=[sel[0], sel[len(sel) // 2]] if sel else [])
     chk.leg_info(leg, functions=kinds)
+
+
+# ----------------------------------------------------------------- end-to-end receive leg
+
+def bitmap(bits):
+    n = 0
+    for j, w in enumerate(bits):
+        n |= w << (64 * j)
+    return n
+
+
+def pstate_parts(st):
+    wins = clist(["(%s, %d, %d)" % (cbool(w["m48"]), w["latest"], bitmap(w["bits"])) for w in st["wins"]])
+    cur = None if st["cur"] < 0 else st["cur"]
+    return st["epoch"], cur, sorted(st["old"]), wins, vlib.cNlist(st["high"])
+
+
+def pstate_term(st):
+    ep, cur, old, wins, high = pstate_parts(st)
+    return "(%d, %s, %s, %s, %s, %s)" % (ep, copt(cur), vlib.cNlist(old), wins, high, cnat(len(st["queue"])))
+
+
+def init_term(c):
+    st = c["init"]
+    ep, cur, old, wins, high = pstate_parts(st)
+    return "(mk_state %s %d %s %s %s %s %s %s %s %s)" % (
+        cnat(c["w"]), ep, copt(cur), vlib.cNlist(old), wins, high, clist([chex(q) for q in st["queue"]]),
+        chex(st["cid"]), cbool(st["cidneg"]), cbool(st.get("rrc", False)))
+
+
+def op_term(o):
+    k = o["op"]
+    if k == "arrive":
+        return "(Arrive %s)" % chex(o["hex"])
+    if k == "install":
+        return "(InstallRead %d)" % o["e"]
+    if k == "remote":
+        return "(SetRemoteEpoch %d)" % o["e"]
+    if k == "cid":
+        return "(SetExt %s %s %s)" % (chex(o.get("hex", "")), cbool(o.get("neg", False)), cbool(o.get("rrc", False)))
+    return "Drain"
+
+
+def obs_term(o):
+    st = "None" if o["state"] is None else "(Some %s)" % pstate_term(o["state"])
+    return "(%s, %s, %d, %s, %s)" % (clist([chex(p) for p in o["delivered"]]),
+                                     clist(["(%d, %d)" % (a[0], a[1]) for a in o["alerts"]]),
+                                     o["errs"], cbool(o["closed"]), st)
+
+
+def e2e_term(c):
+    log = clist(["(%d, %d, %s, %s, %s)" % (l["e"], l["q"], chex(l["aad"]), chex(l["ct"]), chex(l["inner"]))
+                 for l in c["log"]])
+    masks = clist(["(%d, %s, %d)" % (m[0], chex(m[1]), m[2]) for m in c["masks"]])
+    steps = clist(["(%s, %s)" % (clist([op_term(o) for o in s["ops"]]), obs_term(s["obs"])) for s in c["steps"]])
+    return "(mk_e2e %s %s %s %s %s)" % (cnat(c["w"]), init_term(c), log, masks, steps)
+
+
+def e2e_cases(chk):
+    if "e2e" in _cache:
+        return _cache["e2e"]
+    out = vlib.out_path("rec13e2e")
+    rc, o = vlib.go_test(".", "^TestVerifRec13E2E$", env(chk, out), tags=["rec13"], timeout=3000)
+    cases = vlib.read_jsonl(out)
+    vlib.cleanup(out)
+    if rc != 0:
+        kind = vlib.classify_go_failure(o)
+        if kind == "panic":
+            chk.finding(SITE_RX, {"monitor": "panic"}, "panic in the DTLS 1.3 receive path under injected records",
+                        {"output": o[-4000:]})
+        else:
+            chk.broken("correspondence harness TestVerifRec13E2E no longer runs against /repo (%s)" % kind, o)
+        cases = None
+    _cache["e2e"] = cases
+    return cases
+
+
+def e2e_mismatches(chk, cases):
+    """indices of cases whose per-step observations differ from the model, with the first bad step"""
+    if "e2e_bad" in _cache:
+        return _cache["e2e_bad"]
+    terms = [e2e_term(c) for c in cases]
+    bad, err = vlib.coq_mismatches("rec13e", IMPORTS, "e2e_case", "e2e_ok", terms, shard=2, timeout=1500)
+    if bad is None:
+        chk.broken("rec13 end-to-end correspondence evaluation failed in coqc", err)
+        _cache["e2e_bad"] = None
+        return None
+    res = []
+    for i in bad[:3]:
+        txt = ("From Coq Require Import List NArith ZArith String.\nImport ListNotations.\n" + IMPORTS +
+               "\nOpen Scope N_scope.\nDefinition c := %s.\nDefinition r := Eval vm_compute in "
+               "(match e2e_first_bad c with Some (i, _) => Some i | None => None end).\nPrint r.\n"
+               "Definition m := Eval vm_compute in e2e_first_bad c.\nPrint m.\n" % terms[i])
+        ok, out = vlib.coq_run(txt, "rec13dbg_%d_%d" % (os.getpid(), i), timeout=900)
+        m = re.search(r"r\s*=\s*Some\s+(\d+)", out)
+        res.append((i, int(m.group(1)) if m else -1, out[-1500:]))
+    for i in bad[3:]:
+        res.append((i, -1, ""))
+    _cache["e2e_bad"] = res
+    return res
+
+
+def steps_of(c):
+    return c["steps"]
+
+
+def monitor_c05(c):
+    """record authenticity on the implementation trace: (step index, text) or None.
+    Non-authentic ciphertext records (mutants) must have no visible effect and must not touch the
+    replay / record-number state; whatever Read returns was written by the peer."""
+    written = set(c["written"])
+    for i, s in enumerate(c["steps"]):
+        o = s["obs"]
+        for p in o["delivered"]:
+            if p not in written:
+                return i, "Read returned a payload the peer never wrote"
+        if s["tag"].startswith("mutant:"):
+            if o["delivered"]:
+                return i, "altered record (%s) delivered a payload" % s["tag"]
+            if o["alerts"] or o["errs"] or o["emitted"]:
+                return i, "altered record (%s) had a visible effect: alerts=%s errs=%d emitted=%d" % (
+                    s["tag"], o["alerts"], o["errs"], o["emitted"])
+            if o["state"] is not None:
+                prev = prev_state(c, i)
+                if not same_except_queue(prev, o["state"]):
+                    return i, "altered record (%s) changed replay / record-number / key state" % s["tag"]
+        if s["tag"] == "genuine" and s["pl"] >= 0 and s["auth"] == 1 and i > 0 and c["steps"][i - 1]["tag"].startswith("mutant:"):
+            # the genuine record behind its mutants is still accepted (unless the script moved the window past it)
+            pass
+    return None
+
+
+def prev_state(c, i):
+    st = c["init"]
+    for s in c["steps"][:i]:
+        if s["obs"]["state"] is not None:
+            st = s["obs"]["state"]
+    return st
+
+
+def same_except_queue(a, b):
+    return all(a[k] == b[k] for k in ("epoch", "cur", "old", "wins", "high", "closed", "cid", "cidneg", "rrc")) and \
+        b["queue"][:len(a["queue"])] == a["queue"] and len(b["queue"]) <= 100
+
+
+def monitor_c06(c):
+    """at-most-once delivery of every written payload over the whole trace"""
+    seen = {}
+    for i, s in enumerate(c["steps"]):
+        for p in s["obs"]["delivered"]:
+            if p in seen:
+                return i, "payload delivered twice (first at step %d)" % seen[p]
+            seen[p] = i
+    return None
+
+
+def shrink(c, idx):
+    d = dict(c)
+    keep = [i for i, s in enumerate(c["steps"]) if i <= idx and (i == idx or s["auth"] != 0)]
+    d["steps"] = [c["steps"][i] for i in keep]
+    return d
+
+
+def plain_alert_steps(cases):
+    out = []
+    for ci, c in enumerate(cases):
+        for i, s in enumerate(c["steps"]):
+            if s["tag"] == "plain:alert-fatal-epoch0" and s["obs"]["closed"]:
+                out.append((ci, i))
+    return out
+
+
+def run_e2e(chk, prop):
+    cases = e2e_cases(chk)
+    if cases is None:
+        return
+    leg = "rec13-e2e"
+    found = False
+    mon = monitor_c05 if prop == "C05" else monitor_c06
+    for c in cases:
+        m = mon(c)
+        if m:
+            found = True
+            i, text = m
+            chk.finding(SITE_RX, {"monitor": text.split(" (")[0], "variant": c["variant"], "version": "1.3"},
+                        "%s [DTLS 1.3 %s, %s]" % (text, c["variant"], c["scen"]),
+                        {"how": "establish `variant`, run the scenario, deliver steps[*].ops[0].hex in order to `side`",
+                         "case": shrink(c, i)})
+            break
+    if prop == "C05":
+        pa = plain_alert_steps(cases)
+        if pa:
+            ci, i = pa[0]
+            c = cases[ci]
+            chk.finding(SITE_RX, {"monitor": "unprotected fatal alert closes an established DTLS 1.3 connection",
+                                  "version": "1.3"},
+                        "an unprotected (epoch 0, legacy header) fatal alert injected after the handshake closes an "
+                        "established DTLS 1.3 connection [%s]: datagram %s" % (c["variant"], c["steps"][i]["ops"][0]["hex"]),
+                        {"how": "establish DTLS 1.3, then deliver the 15-byte datagram to either side",
+                         "datagram": c["steps"][i]["ops"][0]["hex"], "obs": c["steps"][i]["obs"], "variant": c["variant"]})
+    bad = e2e_mismatches(chk, cases)
+    if bad:
+        for (ci, si, dbg) in bad[:1]:
+            c = cases[ci]
+            m = mon(c)
+            chk.finding(SITE_RX, {"monitor": "model-mismatch", "variant": c["variant"], "version": "1.3"},
+                        "per-step observations differ from Rec/Rec13.v [DTLS 1.3 %s, %s, side %s, step %d %s]" % (
+                            c["variant"], c["scen"], c["side"], si, c["steps"][si]["tag"] if si >= 0 else "?"),
+                        {"case": shrink(c, si) if si >= 0 else c, "model": dbg,
+                         "correspondence": "Rec.Rec13Run.e2e_ok"}, no_input=(m is None and not found))
+    nsteps = sum(len(c["steps"]) for c in cases)
+    keys, tags = [], {}
+    for c in cases:
+        for s in c["steps"]:
+            t = s["tag"].split(":")[0] + (":" + s["tag"].split(":")[1] if ":" in s["tag"] else "")
+            tags[t.split(":")[0]] = tags.get(t.split(":")[0], 0) + 1
+            if s["tag"] != "genuine":
+                keys.append((c["variant"], c["scen"].split("/")[0], s["tag"]))
+    chk.count(leg, nsteps, keys, samples=[{"variant": c["variant"], "scen": c["scen"], "step": c["steps"][-1]["tag"],
+                                           "obs": {k: v for k, v in c["steps"][-1]["obs"].items() if k != "state"}}
+                                          for c in cases[:2]])
+    chk.cov["traces_validated_against_impl"] += len(cases)
+    chk.leg_info(leg, variants=sorted({c["variant"] for c in cases}), step_kinds=tags, connections=len(cases),
+                 scenarios=sorted({c["scen"].split("/")[0] for c in cases}))
